@@ -118,7 +118,8 @@ def consume(chk, results, tot, ctx, samples, label):
         if len(samples) < 8:
             samples += r.get("samples", [])[:1]
         for what, detail in r.get("bad", []):
-            chk.violation("%s:%s" % (what, str(detail.get("minimised", detail.get("text", "?")))[:200]), detail)
+            t = detail.get("minimised", detail.get("text"))
+            chk.violation(what if t is None else "%s:%s" % (what, str(t)[:200]), detail)
 
 
 def any_value(v):
